@@ -10,7 +10,7 @@ PROPS = {
     "C01": dict(verus=["U-TS", "U-SM", "U-SER"], kani=[], bounded=["U-PARSE-B"], findings=[]),
     "C02": dict(verus=["U-SM", "U-TS"], kani=[], bounded=["U-PARSE-B"], findings=[]),
     "C03": dict(verus=["U-SM"], kani=["U-TBS"], bounded=[], findings=[]),
-    "C04": dict(verus=["U-NTH"], kani=["U-SEL"], bounded=[], findings=[]),
+    "C04": dict(verus=["U-NTH"], kani=["U-SEL"], bounded=["U-PARSE-B"], findings=[]),
     "C05": dict(verus=["U-TS"], kani=["U-HVEC"], bounded=[], findings=[]),
     "C06": dict(verus=["U-SM", "U-TS"], kani=[], bounded=["U-PARSE-B"], findings=[]),
     "C07": dict(verus=["U-TS", "U-SER"], kani=[], bounded=[], findings=[]),
